@@ -102,6 +102,9 @@ func (cg *callerGen) schemaFor(g *GT, omit bool) (avro.Schema, bool) {
 			if !ok {
 				return avro.Schema{}, false
 			}
+			if it.Type != "union" && cg.rng.Intn(4) == 0 {
+				it = cg.nullable(it)
+			}
 			base = avro.Schema{Type: "array", Object: &avro.SchemaObject{Items: it}}
 		}
 	case "array":
@@ -117,6 +120,9 @@ func (cg *callerGen) schemaFor(g *GT, omit bool) (avro.Schema, bool) {
 		vs, ok := cg.schemaFor(u.Elem, false)
 		if !ok {
 			return avro.Schema{}, false
+		}
+		if vs.Type != "union" && cg.rng.Intn(3) == 0 {
+			vs = cg.nullable(vs) // a nullable value schema over a plain Go value type: every entry is the non-null branch
 		}
 		base = avro.Schema{Type: "map", Object: &avro.SchemaObject{Values: vs}}
 	case "struct":
@@ -237,7 +243,11 @@ func fitValue(rng *rand.Rand, s avro.Schema, g *GT, v reflect.Value) {
 			for it.Next() {
 				e := reflect.New(v.Type().Elem()).Elem()
 				e.Set(it.Value())
-				fitValue(rng, s.Object.Values, u.Elem, e)
+				if k := e.Kind(); rng.Intn(4) == 0 && (k == reflect.Bool || k == reflect.String || (k >= reflect.Int && k <= reflect.Float64)) {
+					e.Set(reflect.Zero(e.Type())) // a zero entry is still an entry
+				} else {
+					fitValue(rng, unwrapNull(s.Object.Values), u.Elem, e)
+				}
 				v.SetMapIndex(it.Key(), e)
 			}
 		}
